@@ -236,12 +236,21 @@ func runC05(r *mc.Run) {
 			if c.Choose("crl.authority-key-identifier", 2) == 1 {
 				crlAKI = world.Fill("c05-other-key-identifier", 20)
 			}
+			// when the CRLs were issued: by default shortly before the verification time; long ago (before any certificate
+			// of the chain became valid: what such a CRL lists is listed all the same); at the verification time itself
+			var crlThis time.Time
+			switch c.Choose("crl.this-update", 3) {
+			case 1:
+				crlThis = world.T0.AddDate(-3, 0, 0)
+			case 2:
+				crlThis = world.T0
+			}
 			id := "crl/" + c.ID() + world.LogTag()
 			if !r.Want(id) {
 				return
 			}
-			pckCrl := world.MakeCRL(world.CRLSpec{Issuer: pckSigners[psg].issuer, Signer: pckSigners[psg].key, Revoked: pckSets[ps].list, Reason: reason, RevokedAt: revAt, EntryExts: entryExts, FirstEntryExts: firstExts, IssuerUTF8: utf8Issuer, AuthorityKeyID: crlAKI})
-			rootCrl := world.MakeCRL(world.CRLSpec{Issuer: rootSigners[rsg].issuer, Signer: rootSigners[rsg].key, Revoked: rootSets[rs].list, Reason: reason, RevokedAt: revAt, EntryExts: entryExts, FirstEntryExts: firstExts, IssuerUTF8: utf8Issuer, AuthorityKeyID: crlAKI})
+			pckCrl := world.MakeCRL(world.CRLSpec{Issuer: pckSigners[psg].issuer, Signer: pckSigners[psg].key, Revoked: pckSets[ps].list, Reason: reason, RevokedAt: revAt, EntryExts: entryExts, FirstEntryExts: firstExts, IssuerUTF8: utf8Issuer, AuthorityKeyID: crlAKI, ThisUpdate: crlThis})
+			rootCrl := world.MakeCRL(world.CRLSpec{Issuer: rootSigners[rsg].issuer, Signer: rootSigners[rsg].key, Revoked: rootSets[rs].list, Reason: reason, RevokedAt: revAt, EntryExts: entryExts, FirstEntryExts: firstExts, IssuerUTF8: utf8Issuer, AuthorityKeyID: crlAKI, ThisUpdate: crlThis})
 			fPck := world.MakeCRL(world.CRLSpec{Issuer: F.Inter, Signer: F.InterKey})
 			fRoot := world.MakeCRL(world.CRLSpec{Issuer: F.Root, Signer: F.RootKey})
 			serve := func(kind string, own, other, f []byte, hdr map[string][]string) world.Response {
